@@ -799,6 +799,62 @@ func c16GenNoise(c *ctx) {
 			}
 		}
 	}
+	// shapes RECORDED from a real tmux 3.3a (group e2e-tmux, raw stream at the client's pty while trz/tsz wrote
+	// to the client tty): whole redraws in front of a line, a redraw bracketed by the synchronized-update
+	// strings at every position inside a line; the shapes the reader is NOT built for (a redraw without the
+	// brackets inside a line, a redraw that scrolls another pane with a bare LF) are correspondence cases only
+	{
+		statusRedraw := "\x1b[?25l\x1b[30m\x1b[42m\x1b[30d[main] 0:trz*" + strings.Repeat(" ", 67) + "\"vm\" 03:37 01-Oct-26\x1b(B\x1b[m\x1b[?12l\x1b[?25h\x1b[19;1H"
+		var border strings.Builder
+		border.WriteString("\x1b[?25l")
+		for r := 1; r <= 29; r++ {
+			fmt.Fprintf(&border, "\x1b[%d;70H\xe2\x94\x82", r)
+		}
+		border.WriteString("\x1b(B\x1b[m\x1b[?12l\x1b[?25h\x1b[29;71H")
+		shapes := []struct {
+			name   string
+			text   string
+			inside bool // recoverable at any position behind the '#'
+			front  bool // recoverable in front of the line
+		}{
+			{"status-redraw", statusRedraw, false, true},
+			{"status-redraw-sync", "\x1bP=1s\x1b\\" + statusRedraw + "\x1bP=2s\x1b\\", true, true},
+			{"two-redraws-sync", "\x1bP=1s\x1b\\" + statusRedraw + "\x1bP=2s\x1b\\\x1bP=1s\x1b\\\x1b[?25l\x1b[30m\x1b[42m\x1b[30d[main]\x1b[5;1H\x1bP=2s\x1b\\", true, true},
+			{"pane-border-redraw", border.String(), false, true},
+			{"other-pane-scroll-batch", "\x1b[1;7r\x1b[1;1H\x1b[2S\x1b[5;6Hecho one line from the other pane\r\none line from the other pane\x1b[K\r\ntmx$ \x1b[K\x1b[1;30r\x1b[13;1H", false, true},
+			{"other-pane-scroll-bare-lf", "\x1b[1;7r\x1b[7;1H\n\x1b[Abusy line 1392 of the other pane\r\n\x1b[K\x1b[1;30r\x1b[13;6H", false, false},
+		}
+		for _, sh := range shapes {
+			for rep := 0; rep < c.pick(4, 40); rep++ {
+				ty := c16Types[c.rng.Intn(len(c16Types))]
+				line := []byte("#" + ty + ":" + string(c.c16Payload(60)))
+				next := []byte("#" + ty + ":" + string(c.c16Payload(8)))
+				var positions []int
+				positions = append(positions, 0)
+				for pos := 1; pos <= len(line); pos++ {
+					if rep == 0 || c.rng.Intn(8) == 0 {
+						positions = append(positions, pos)
+					}
+				}
+				for _, pos := range positions {
+					r := append(append(append([]byte(nil), line[:pos]...), sh.text...), line[pos:]...)
+					stream := append(append(append(r, '\n'), next...), '\n')
+					cs := c.split(stream, 1+c.rng.Intn(40))
+					res := emitJunk(true, cs, []string{ty, ty, ty}, true, pos%2 == 0)
+					promised := (pos == 0 && sh.front) || (pos > 0 && sh.inside)
+					if !promised {
+						c.count("tmux:recorded-shape:no-promise:" + sh.name)
+						continue
+					}
+					c.count("tmux:recorded-shape:" + sh.name)
+					if len(res) < 2 || res[0] != "d"+hx(line) || res[1] != "d"+hx(next) {
+						c.violate("tmux-unrecovered:recorded:"+sh.name, "a protocol line with a redraw recorded from a real tmux is not recovered by recvLine",
+							fmt.Sprintf("want=%q position=%d chunks=%s results=%s", line, pos, c03ChunksStr(cs), c03ResStr(res)))
+					}
+				}
+			}
+		}
+	}
 	for i := 0; i < c.pick(6000, 60000); i++ {
 		ty := c16Types[c.rng.Intn(len(c16Types))]
 		tmuxCase(ty, c.c16Payload(40), c.rng.Intn(2), c.rng.Intn(4), c.rng.Intn(6), c.rng.Intn(5)/4, "random")
